@@ -683,6 +683,12 @@ def iter_next(eng, it):
             v = it.f[0]
             it.f[0] = None
             return some(v)
+        if n == 'PathIter':
+            items, spans, pos = it.f
+            if pos >= len(spans):
+                return none()
+            it.f[2] = pos + 1
+            return some(Bytes(spans[pos][1], 'OsStr'))
         if n == 'PyIter':
             try:
                 return some(next(it.f[0]))
@@ -986,3 +992,21 @@ def _(eng, ci, a, sp):
             out.extend(sepv.items)
         out.extend(deref_all(x).items)
     return Vec(out, 'String')
+
+
+@S('impl_slice::reverse')
+def _(eng, ci, a, sp):
+    v = deref_all(a[0])
+    if isinstance(v, (Vec, Arr, Deque)):
+        v.items.reverse()
+        return UNIT
+    raise Unsupported('reverse of %r' % (v,))
+
+
+@S('impl_slice::sort', 'impl_slice::sort_unstable')
+def _(eng, ci, a, sp):
+    v = deref_all(a[0])
+    if all(isinstance(x, int) for x in v.items):
+        v.items.sort()
+        return UNIT
+    raise Unsupported('sort of symbolic items')
